@@ -36,6 +36,7 @@ import (
 	"net/http"
 	"path"
 	"strings"
+	"sync"
 	"time"
 
 	ssi "github.com/nuts-foundation/go-did"
@@ -103,6 +104,8 @@ type vcr struct {
 	walletHttpClient    core.HTTPRequestDoer
 	pkiProvider         pki.Provider
 	vdrInstance         vdr.VDR
+	// storeCredentialMutex makes sure that checking whether a credential ID is in use and writing the credential is atomic.
+	storeCredentialMutex sync.Mutex
 }
 
 func (c *vcr) GetOpenIDIssuer(ctx context.Context, id did.DID) (issuer.OpenIDHandler, error) {
